@@ -20,7 +20,7 @@ package pkgload
 // ---- C14: the context parameters of a function are exactly the `context NAME` settings of that
 // ---- function's own doc comment (nothing leaks from another declaration of the file or package) ----
 //@ func PackageLoader.localConfig
-//@   props C14
+//@   props C14 C19 C06
 //@   loop 3 invariant forall k string :: has(contexts, k) ==> parse.DeclaresContext(lines, k)
 //@   loop 3 invariant forall j int :: 0 <= j && j < idx && parse.IsContextLine(lines[j]) ==> has(contexts, parse.ContextName(lines[j]))
 //@   loop 1 invariant forall k string :: has(g.locals, k) == old(has(g.locals, k))
@@ -58,3 +58,12 @@ package pkgload
 
 //@ func PackageLoader.GetUncheckedPkg
 //@   pure
+
+// C06/C14: for a pattern, every matching function is parsed with the per-use options and with the local
+// settings of THAT function (looked up under the name the object was looked up with)
+//@ func PackageLoader.GetMatching
+//@   props C06 C14
+//@   assigns map(g.locals)
+//@   at@C06 call g.localConfig#1 assert arg0 == pkg && obj == scope.Lookup(arg1)
+//@   at@C14 call method.Parse#1 assert arg1 == opts
+//@   at@C14 call g.getOneParsed#1 assert arg2 == opts && arg1 == name
